@@ -18,10 +18,12 @@ def task_{i}():
             if flush:
                 f.flush()
         elif level == "fd":
-            f.flush()
+            if {sync!r}:
+                f.flush()
             os.write(fd, text.encode())
         else:
-            f.flush()
+            if {sync!r}:
+                f.flush()
             subprocess.run([sys.executable, "-c",
                             "import sys; s = sys.stdout if %r == 'out' else sys.stderr; s.write(%r); s.flush()" % (stream, text)],
                            check=True)
@@ -50,11 +52,13 @@ def run(case, base):
     proj.mkdir()
     src = ["import pytask"]
     for i, t in enumerate(case["tasks"]):
-        if i > 0:      # chain the tasks so that they run in order
+        if i > 0 and case.get("chain", True):      # chain the tasks so that they run in order
             src.append(f"@pytask.task(after=task_{i-1}, produces=__import__('pathlib').Path(__file__).parent / 'o{i}.txt')")
         else:
             src.append(f"@pytask.task(produces=__import__('pathlib').Path(__file__).parent / 'o{i}.txt')")
-        body = TASK.format(i=i, writes=[tuple(w) for w in t["writes"]], fail=False)
+        # in fd mode Python-level and descriptor-level writes end in one capture file: their order must be kept
+        # without any flush; in the other modes the process's own buffering decides the order on the real stream
+        body = TASK.format(i=i, writes=[tuple(w) for w in t["writes"]], fail=False, sync=case["method"] != "fd")
         # the product must exist for a successful task
         # @task(produces=path): the returned string is stored in the product
         body = body.replace("    if False:\n        raise RuntimeError(\"boom\")\n",
